@@ -13,6 +13,13 @@ Tie         : every seeded history (lock / re-lock / update / unlock / expiry / 
               The three censuses are compared: model == Go before the stop (all fields incl. isAof/aofTime), model == Go
               after the restart (all fields incl. exact deadline).
 Monitor     : the property statement evaluated on the Go observations only (see `monitor`).
+Two restarts: a history may contain a line `restart <outage2>`: the actions after it (phase 2: unlocks and re-locks of restored
+              holds, new locks, small clock advances) run on the RESTARTED node (`restarth restart <dir> ... <casefile>`), which
+              is stopped at a quiescent point again and restarted a second time in a fresh process (not before the real clock
+              has passed the DB clock of the second stop + outage2: the wall clock cannot be faked).  Model: `recover_at` of the
+              records found on disk -> engine model (leader) on phase 2, records appended to the kept ones -> `recover_at`.
+              Compared: phase-2 replies, census at the second stop, record stream vs disk, census after the second restart;
+              the monitor is evaluated on (second stop, second restart) as well.  Theorems: coq/Properties/C07_twice.v.
 Clocks      : LoadAofFiles filters against the wall clock, the engine uses db.currentTime.  The history runs on manual DB
               clocks started at T0 = real now - sum(adv) - outage, so the restarted process (real clock for both) sees an
               outage of `outage` (+ process start-up) seconds; wall clock and DB clocks of the restarted process are printed
@@ -100,16 +107,134 @@ def gen_case(rng, prof, cid, cfg, with_data):
     return transform(c, rng, cid, ndbs, rng.choice(OUTAGES), cfg), g.stats
 
 
+def big_value(r, size):
+    """SET frame with a payload of `size` random bytes (value frames of the .dat side file; AofFile.ReadLockData reads
+    them through a bufio.Reader of aof_file_buffer_size*64 bytes: 4096 with the 64-byte configuration)"""
+    from checks import C15_data
+    return "x" + C15_data.f_set(bytes(r.choice(b"abcdefghijklmnopqrstuvwxyz") for _ in range(size)), None, 0).hex()
+
+
+def gen_twice(rng, cid, cfg, thorough=False):
+    """directed two-restart history: run 1 takes (mostly persist-immediately, long-lived) exclusive and re-entrant holds on a
+    few keys, some with values - also values that do not fit into / straddle the 4096-byte chunk of the value-file reader -,
+    releases some; `restart`; run 2 releases restored holds, re-locks them, takes new holds, lets a second or two pass."""
+    ndbs = rng.choice([1, 1, 2])
+    aoft = rng.choice([0, 1, 1, 2])
+    keys = rng.sample([3, 7, 11, 19, 71, 135, 258, 70000], rng.choice([2, 3, 4]))
+    ids = list(range(101, 101 + rng.choice([3, 4, 6])))
+    conns = [1, 2, 3]
+    st = collections.Counter()
+    req = [0]
+    held = {}                                   # (db, key) -> lockid  (what run 1 / run 2 believe to hold)
+    bigmode = rng.random() < (0.5 if cfg[0] <= 128 else 0.2)
+    # on-disk size of a SET frame = 4 (length) + 2 (frame header) + payload; the second / third value starts at (or its
+    # length prefix straddles) the 4096-byte boundary of the reader's chunk, or lies across it
+    s1 = rng.choice([1000, 2042, 3000])
+    target = rng.choice([4090, 4093, 4094, 4095, 4096, 4097, 4100, 6012])
+    bigsizes = [s1, max(1, target - (s1 + 6) - 6) if target != 6012 else 3000, rng.choice([100, 3000, 4090, 5000]), rng.choice([10, 2000])]
+
+    def lock(db, key, lid, phase):
+        req[0] += 1
+        eflag = rng.choice([0x100] * 7 + [0, 0x200, 0x1000])
+        expried = rng.choice([30, 60, 120, 600, 3000] + ([2, 3, 5] if rng.random() < 0.3 else []))
+        rcount = rng.choice([0, 0, 0, 0, 1, 2])
+        flag, data = 0, "-"
+        x = rng.random()
+        if bigmode and x < 0.7 and bigsizes:
+            data, flag = big_value(rng, bigsizes.pop(0)), 0x20
+            eflag = 0x100
+            st["big_value"] += 1
+        elif not bigmode and x < 0.25:
+            data, flag = safe_data(rng), 0x20
+        st["lock_p%d" % phase] += 1
+        held.setdefault((db, key), lid)
+        return "req %d L %d %d %d %d 0 0 %d %d 0 %d %s %d" % (rng.choice(conns), req[0], flag, lid, key, eflag, expried, rcount, data, db)
+
+    def unlock(db, key, lid, phase):
+        req[0] += 1
+        st["unlock_p%d" % phase] += 1
+        if held.get((db, key)) == lid:
+            held.pop((db, key))
+        return "req %d U %d 0 %d %d 0 0 0 0 0 %d - %d" % (rng.choice(conns), req[0], lid, key, rng.choice([0, 0, 0, 1]), db)
+
+    out = []
+    for _ in range(rng.randint(2, 9)):
+        x = rng.random()
+        db, key = rng.randrange(ndbs), rng.choice(keys)
+        if x < 0.7 or not held:
+            out.append(lock(db, key, held.get((db, key), rng.choice(ids)) if rng.random() < 0.3 else rng.choice(ids), 1))
+        elif x < 0.85:
+            (db, key), lid = rng.choice(sorted(held.items()))
+            out.append(unlock(db, key, lid, 1))
+        else:
+            out += ["adv %d" % rng.choice([1, 1, 2]), "sweept", "sweepe"]
+    out += ["sweept", "sweepe", "restart %d" % rng.choice([0, 0, 1])]
+    advleft = rng.choice([0, 1, 2, 3]) if not thorough else rng.choice([0, 1, 2, 3, 5, 8])
+    restored = dict(held)
+    for _ in range(rng.randint(1, 7)):
+        x = rng.random()
+        if x < 0.5 and restored:
+            (db, key), lid = rng.choice(sorted(restored.items()))
+            restored.pop((db, key))
+            out.append(unlock(db, key, lid, 2))
+            st["unlock_restored"] += 1
+        elif x < 0.6 and held:
+            (db, key), lid = rng.choice(sorted(held.items()))
+            out.append(lock(db, key, lid, 2))                  # re-lock of a (restored) hold by its owner
+            st["relock_restored"] += 1
+        elif x < 0.85:
+            out.append(lock(rng.randrange(ndbs), rng.choice(keys + [keys[0] + 64]), rng.choice(ids), 2))
+        elif advleft > 0:
+            k = rng.randint(1, advleft)
+            advleft -= k
+            out += ["adv %d" % k, "sweept", "sweepe"]
+            st["adv_p2"] += 1
+    out += ["sweept", "sweepe", "end"]
+    return ["case %d %d %d %d %d %d" % (cid, aoft, ndbs, rng.choice([0, 0, 1, 2, 5]), cfg[0], cfg[1])] + out, st
+
+
+def gen_twice_split(rng, prof, cid, cfg, with_data, thorough=False):
+    """a seeded engine history cut into two runs: `restart` inserted in its second half; the clock advances of the
+    second run are capped (they are waited for in real time before the second restart)"""
+    c, st = gen_case(rng, prof, cid, cfg, with_data)
+    body = c[1:-3]                                            # without the final sweeps and `end`
+    if len(body) < 4:
+        return c, st
+    cut = rng.randint(len(body) // 2, len(body) - 1)
+    budget = 3 if not thorough else 10
+    second = []
+    for ln in body[cut:]:
+        f = ln.split()
+        if f[0] == "adv":
+            k = min(int(f[1]), budget)
+            budget -= k
+            if k == 0:
+                continue
+            ln = "adv %d" % k
+        second.append(ln)
+    st = collections.Counter(st)
+    st["twice_split"] += 1
+    return [c[0]] + body[:cut] + ["sweept", "sweepe", "restart %d" % rng.choice([0, 0, 1])] + second + ["sweept", "sweepe", "end"], st
+
+
 # ------------------------------------------------------------------------------------------------- running
 def parse_out(text):
     """-> dict(t0, replies[], before[], after[], nowend, wall, dbnow{}, panic, files)"""
     res = dict(t0=None, replies=[], holds=[], nowend=None, wall=None, wall1=None, dbnow={}, panic=None, files=None, initerr=None,
-               logs=[], stopped=False, early=None, disk=[], diskerr=None)
+               logs=[], stopped=False, early=None, disk=[], diskerr=None, replies2=[], holds2=[], nowend2=None, dbmax2=None, phase2=False)
     for ln in text.splitlines():
         f = ln.split()
         if not f:
             continue
-        if f[0] == "t0":
+        if f[0] == "phase2":
+            res["phase2"] = True
+        elif res["phase2"] and f[0] == "ev" and f[1] == "reply":
+            res["replies2"].append(ln)
+        elif res["phase2"] and f[0] == "hold":
+            res["holds2"].append(ln)
+        elif f[0] == "now-end2":
+            res["nowend2"], res["dbmax2"] = int(f[1]), int(f[5])
+        elif f[0] == "t0":
             res["t0"] = int(f[1])
         elif f[0] == "ev" and f[1] == "reply":
             res["replies"].append(ln)
@@ -150,30 +275,56 @@ def hold_fields(ln):
     return d
 
 
+def split_case(case):
+    """-> (phase-1 case (header, actions, end), phase-2 action lines or None, outage2)"""
+    idx = next((i for i, l in enumerate(case) if l.split()[0] == "restart"), None)
+    if idx is None:
+        return case, None, 0
+    return case[:idx] + ["end"], [l for l in case[idx + 1:] if l != "end"], int(case[idx].split()[1])
+
+
 def run_go(binary, case, workdir):
-    """phase 1 + phase 2 for one case; returns (hist observation, restart observation)"""
+    """stop + restart for one case; returns (hist observation, restart observation).  Two-restart history: the restart
+    observation also holds phase 2 (replies2, holds2 = census of the second stop) and o2["second"] = observation of the
+    second restart."""
     h = case[0].split()
     outage, buf, rew = h[4], h[5], h[6]
+    _, phase2, outage2 = split_case(case)
     shutil.rmtree(workdir, ignore_errors=True)
     os.makedirs(os.path.join(workdir, "d"))
     cf = os.path.join(workdir, "case.txt")
     open(cf, "w").write("\n".join(case) + "\n")
+
+    def obs(p):
+        o = parse_out(p.stdout.decode("utf-8", "replace"))
+        o["rc"], o["stderr"] = p.returncode, p.stderr.decode("utf-8", "replace")[-800:]
+        return o
     try:
         p = subprocess.run([binary, "hist", os.path.join(workdir, "d"), buf, rew, cf, outage], stdout=subprocess.PIPE,
                            stderr=subprocess.PIPE, timeout=120)
-        o1 = parse_out(p.stdout.decode("utf-8", "replace"))
-        o1["rc"], o1["stderr"] = p.returncode, p.stderr.decode("utf-8", "replace")[-800:]
+        o1 = obs(p)
         if p.returncode != 0 or o1["initerr"]:
             return o1, None
-        o2 = None
+        o2, d2 = None, None
         for attempt in range(3):
             d2 = os.path.join(workdir, "r%d" % attempt)
             shutil.copytree(os.path.join(workdir, "d"), d2)
-            p = subprocess.run([binary, "restart", d2, buf, rew, h[2]], stdout=subprocess.PIPE, stderr=subprocess.PIPE, timeout=120)
-            o2 = parse_out(p.stdout.decode("utf-8", "replace"))
-            o2["rc"], o2["stderr"] = p.returncode, p.stderr.decode("utf-8", "replace")[-800:]
+            p = subprocess.run([binary, "restart", d2, buf, rew, h[2]] + ([cf] if phase2 is not None else []),
+                               stdout=subprocess.PIPE, stderr=subprocess.PIPE, timeout=120)
+            o2 = obs(p)
             if o2["wall"] is not None and o2["wall"] == o2["wall1"]:
                 break
+        if phase2 is not None and o2 is not None and o2.get("rc") == 0 and o2.get("dbmax2") is not None and not o2.get("initerr"):
+            o3 = None
+            for attempt in range(3):
+                d3 = os.path.join(workdir, "q%d" % attempt)
+                shutil.copytree(d2, d3)
+                p = subprocess.run([binary, "restart", d3, buf, rew, h[2], "-", str(o2["dbmax2"] + outage2)],
+                                   stdout=subprocess.PIPE, stderr=subprocess.PIPE, timeout=120)
+                o3 = obs(p)
+                if o3["wall"] is not None and o3["wall"] == o3["wall1"]:
+                    break
+            o2["second"] = o3
         return o1, o2
     except subprocess.TimeoutExpired:
         return dict(rc=124, stderr="timeout", panic=None, initerr=None, holds=[], replies=[], t0=None, stopped=False), None
@@ -184,10 +335,16 @@ def run_go(binary, case, workdir):
 def model_input(case, o1, o2):
     h = case[0].split()
     ndbs = int(h[3])
+    p1, phase2, _ = split_case(case)
     lines = ["case %s %d %s %d" % (h[1], o1["t0"], h[2], ndbs)]
-    lines += [l for l in case[1:] if l != "end"]
+    lines += [l for l in p1[1:] if l != "end"]
     lines += o2["disk"]
     lines.append("restart %d %s" % (o2["wall"], " ".join(str(o2["dbnow"].get(i, -1)) for i in range(ndbs))))
+    o3 = o2.get("second")
+    if phase2 is not None and o3 is not None and o3.get("wall") is not None:
+        lines += phase2
+        lines += o3["disk"]
+        lines.append("restart %d %s" % (o3["wall"], " ".join(str(o3["dbnow"].get(i, -1)) for i in range(ndbs))))
     lines.append("end")
     return lines
 
@@ -209,6 +366,11 @@ def run_model(modelrun, inputs, tmp):
             phase = 0
         elif cur is None:
             continue
+        elif f[0] == "phase2":                       # block of the next run (two-restart history); empty after the last restart
+            nxt = dict(replies=[], before=[], after=[], after_disk=[], recs=[], panic=None, nowend=None)
+            cur["p2"] = nxt
+            cur = nxt
+            phase = 0
         elif f[0] == "ev" and f[1] == "reply":
             cur["replies"].append(ln)
         elif f[0] == "ev" and f[1] == "panic":
@@ -265,8 +427,37 @@ def disk_dropped(f, wall):
     return et <= (e & 0xffff)
 
 
-def monitor(case, o1, o2, mrecs=None):
+def corrupted_values(disk, mrecs):
+    """(db, key) of the records on disk whose value blob differs from the blob of the same record in the record stream
+    of the history (model output; the streams are tie-checked): the value was damaged in the files or by the reader.
+    Records are aligned per database as a subsequence on all fields but the value (compaction only drops records)."""
+    bad = set()
+    if not mrecs:
+        return bad
+    per = collections.defaultdict(list)
+    for ln in mrecs:
+        f = ln.split()
+        per[f[1]].append((tuple(f[2:6] + [str(int(f[6]) & ~1)] + f[7:13]), f[13]))
+    pos = collections.Counter()
+    for ln in disk or []:
+        f = ln.split()
+        k = tuple(f[2:6] + [str(int(f[6]) & ~1)] + f[7:13])
+        lst = per.get(f[1], [])
+        i = pos[f[1]]
+        while i < len(lst) and lst[i][0] != k:
+            i += 1
+        if i < len(lst):
+            pos[f[1]] = i + 1
+            if lst[i][1] != f[13]:
+                bad.add((int(f[1]), int(f[5])))
+    return bad
+
+
+def monitor(case, o1, o2, mrecs=None, second=False, restored=None):
     """the property statement on the Go observations; returns [(signature, description)].
+    second=True: (o1, o2) = (second stop, second restart) of a two-restart history; `restored` = the (db, key, LockId) held
+    after the FIRST restart: a hold restored by a restart IS persisted whatever its age in the new run, and a restored hold
+    that was released in the run between the restarts must not come back.
     The root-cause tag `<-per-record-expiry-filter` of a signature (not the verdict) also looks at the complete record
     stream of the history (model output, tie-checked against the disk records): compaction applies the same filter
     earlier and removes the dropped records from the disk."""
@@ -338,6 +529,7 @@ def monitor(case, o1, o2, mrecs=None):
             prio_unlock_on_key.add((int(f[14]), int(f[6])))
 
     twice = collections.Counter((h["db"], h["key"], h["lockid"]) for h in A)
+    badvals = corrupted_values(o2.get("disk"), mrecs)
 
     def tag(k):
         kk = (k[0], k[1])
@@ -367,8 +559,8 @@ def monitor(case, o1, o2, mrecs=None):
         tol = unit + 1
         d = delay_of(h, cfg_delay, expr)
         age = nowend - h["start"]
-        required = d is not None and age >= d
-        forbidden = d is None
+        required = (d is not None and age >= d) or (second and bool(h["isaof"]) and k in (restored or ()))
+        forbidden = d is None and not (second and k in (restored or ()))
         unlimited = bool(h["eflag"] & 0x4000)
         remaining = MAXT if unlimited else h["deadline"] - wall
         live = remaining > 0
@@ -399,7 +591,10 @@ def monitor(case, o1, o2, mrecs=None):
             hits.append(("expired-hold-restored" + tag(k), "hold %s had expired %d s before the restart and is held again" % (k, -remaining)))
         for fld in ("depth", "count", "rcount", "val"):
             if b[fld] != h[fld]:
-                hits.append(("restored-hold-differs:" + fld + tag(k), "hold %s: %s was %s before the stop and is %s after the restart" % (k, fld, h[fld], b[fld])))
+                if fld == "val" and (k[0], k[1]) in badvals:
+                    hits.append(("restored-hold-differs:val:record-value-corrupted", "hold %s: the value of the key is %s... (%d bytes) after the restart, it was %s... (%d bytes) before the stop; the value blob of a record of this key read back from the files differs from the blob that was written" % (k, b["val"][:40], len(b["val"]) // 2, h["val"][:40], len(h["val"]) // 2)))
+                    continue
+                hits.append(("restored-hold-differs:" + fld + tag(k), "hold %s: %s was %s before the stop and is %s after the restart" % (k, fld, str(h[fld])[:80], str(b[fld])[:80])))
         if not unlimited and abs(b["deadline"] - h["deadline"]) > tol:
             kind = "renewed" if b["deadline"] > h["deadline"] else "shortened"
             hits.append(("deadline-%s:%s-unit" % (kind, uname) + tag(k), "hold %s: deadline %d before the stop, %d after the restart (difference %d s, tolerance %d s)" % (k, h["deadline"], b["deadline"], b["deadline"] - h["deadline"], tol)))
@@ -407,7 +602,11 @@ def monitor(case, o1, o2, mrecs=None):
             hits.append(("deadline-changed:unlimited" + tag(k), "hold %s: unlimited hold restored with deadline %d" % (k, b["deadline"])))
     for k, g in bgroups.items():
         for b in g:
-            hits.append(("resurrected-hold" + tag(k), "hold %s (deadline %d) is held after the restart but was not held at the stop" % (k, b["deadline"])))
+            t = tag(k)
+            if second and not t and k in (restored or ()):
+                hits.append(("resurrected-hold:released-after-an-earlier-restart", "hold %s had been restored by the first restart, was released (or expired) in the run after it - it is not held at the second stop - and is held again after the second restart (deadline %d)" % (k, b["deadline"])))
+                continue
+            hits.append(("resurrected-hold" + t, "hold %s (deadline %d) is held after the restart but was not held at the stop" % (k, b["deadline"])))
     return raw + hits
 
 
@@ -527,24 +726,105 @@ def compare_case(c, o1, o2, m):
     return None
 
 
+def compare_second(c, o1, o2, m):
+    """two-restart history, model vs Go for the run between the restarts and the second restart; None or a difference"""
+    o3 = o2.get("second")
+    m2 = (m or {}).get("p2")
+    if m is None or m2 is None or o3 is None or m2.get("nowend") is None:
+        return None
+    if m2["panic"]:
+        return None if o2.get("panic") else dict(what="second:model-panic", model=m2["panic"])
+    mrep = [x for x in m2["replies"] if x.split()[3] != "0"]          # connection 0 = the loader (replies are dropped by the node)
+    if mrep != o2["replies2"]:
+        d = [(a, b) for a, b in zip(mrep, o2["replies2"]) if a != b][:2]
+        return dict(what="second:replies", first=d, n=(len(mrep), len(o2["replies2"])))
+    strip = lambda ls: sorted(re.sub(r" aoftime=\d+", "", x) for x in ls)
+    if strip(m2["before"]) != strip(o2["holds2"]):
+        return dict(what="second:census-at-second-stop", model=[x for x in strip(m2["before"]) if x not in strip(o2["holds2"])][:3],
+                    impl=[x for x in strip(o2["holds2"]) if x not in strip(m2["before"])][:3])
+    compacted = any("rewrite.aof=" in (o.get("files") or "") for o in (o1, o2, o3))
+    mrecs, drecs = collections.defaultdict(list), collections.defaultdict(list)
+    for x in m2["recs"]:
+        f = x.split()
+        f[6] = str(int(f[6]) & ~1)
+        mrecs[f[1]].append(tuple(f[2:14]))
+    for x in o3["disk"]:
+        f = x.split()
+        f[6] = str(int(f[6]) & ~1)
+        drecs[f[1]].append(tuple(f[2:14]))
+    for dbi in set(mrecs) | set(drecs):
+        a, b = mrecs[dbi], drecs[dbi]
+        if not compacted:
+            if a != b:
+                i = next((i for i, (x, y) in enumerate(zip(a, b)) if x != y), min(len(a), len(b)))
+                return dict(what="second:record-stream", db=dbi, index=i, model=[" ".join(t)[:200] for t in a[i:i + 2]],
+                            disk=[" ".join(t)[:200] for t in b[i:i + 2]], n=(len(a), len(b)))
+        else:
+            it = iter(a)
+            if not all(any(x == y for x in it) for y in b):
+                return dict(what="second:record-stream-not-a-subsequence", db=dbi, model=[" ".join(t)[:120] for t in a[:40]], disk=[" ".join(t)[:120] for t in b[:40]])
+    if strip(m2["after_disk"]) != strip(o3["holds"]):
+        return dict(what="second:census-after-second-restart(from-disk-records)", model=[x for x in strip(m2["after_disk"]) if x not in strip(o3["holds"])][:3],
+                    impl=[x for x in strip(o3["holds"]) if x not in strip(m2["after_disk"])][:3], wall=o3["wall"], dbnow=o3["dbnow"], disk=[d[:200] for d in o3["disk"][-14:]])
+    if not compacted and strip(m2["after"]) != strip(o3["holds"]):
+        return dict(what="second:census-after-second-restart", model=[x for x in m2["after"] if x not in o3["holds"]][:3],
+                    impl=[x for x in o3["holds"] if x not in m2["after"]][:3], wall=o3["wall"], dbnow=o3["dbnow"])
+    return None
+
+
+def hold_key(ln):
+    h = hold_fields(ln)
+    return (h["db"], h["key"], h["lockid"])
+
+
+def analyse(c, o1, o2, m):
+    """-> (monitor hits [(sig, desc)], model/implementation difference or None) for one executed case (both restarts)"""
+    p1, phase2, _ = split_case(c)
+    hits = list(monitor(p1, o1, o2, (m or {}).get("recs")))
+    d = compare_case(p1, o1, o2, m)
+    o3 = o2.get("second")
+    if phase2 is not None:
+        if o3 is None or o3.get("wall") is None or o2.get("nowend2") is None or o2.get("rc") != 0:
+            hits.append(("second-run-fails", "the run between the two restarts did not complete: rc=%s %s %s" % (o2.get("rc"), o2.get("panic"), (o2.get("stderr") or "")[-200:])))
+        elif o3.get("initerr") or o3.get("rc") != 0:
+            hits.append(("second-restart-fails", "the node does not start on the data directory of the second stop: %s %s" % (o3.get("initerr"), (o3.get("stderr") or "")[-200:])))
+        else:
+            oa = dict(holds=o2["holds2"], nowend=o2["nowend2"])
+            restored = set(hold_key(l) for l in o2["holds"])
+            full = [l for l in c if l.split()[0] != "restart"]
+            hits += monitor(full, oa, o3, ((m or {}).get("p2") or {}).get("recs"), second=True, restored=restored)
+            d = d or compare_second(c, o1, o2, m)
+    return hits, d
+
+
 def shrink(case, still_bad, max_rounds=40):
     head, body, tail = case[0], case[1:-1], [case[-1]]
     if body[-2:] == ["sweept", "sweepe"]:                # the stop point stays quiescent
         body, tail = body[:-2], body[-2:] + tail
+    keep = set()                                         # two-restart history: the restart line and the sweeps before it stay
+    for i, l in enumerate(body):
+        if l.startswith("restart "):
+            keep.add(i)
+            if body[max(0, i - 2):i] == ["sweept", "sweepe"]:
+                keep.update((i - 2, i - 1))
+    body = [(l, i in keep) for i, l in enumerate(body)]
     rounds = 0
     chunk = max(1, len(body) // 2)
     while chunk >= 1 and rounds < max_rounds:
         i, progressed = 0, False
         while i < len(body) and rounds < max_rounds:
-            cand = body[:i] + body[i + chunk:]
+            cand = body[:i] + [x for x in body[i:i + chunk] if x[1]] + body[i + chunk:]
+            if len(cand) == len(body):
+                i += chunk
+                continue
             rounds += 1
-            if still_bad([head] + cand + tail):
+            if still_bad([head] + [x[0] for x in cand] + tail):
                 body, progressed = cand, True
             else:
                 i += chunk
         if not progressed or chunk == 1:
             chunk //= 2
-    return [head] + body + tail
+    return [head] + [x[0] for x in body] + tail
 
 
 def run(ctx):
@@ -596,6 +876,23 @@ def run(ctx):
                     c, st = gen_case(r2, prof, cid, cfg, wd)
                     cases.append(c); origin[str(cid)] = prof + ("+data" if wd else ""); cid += 1
                     stats.update(st)
+        # two-restart histories (run 1 / restart / run 2 / restart): directed + seeded engine histories cut in two
+        n_twice, n_split = (160, 60) if thorough else (18, 7)
+        for i in range(n_twice + n_split):
+            sub = random.Random(ctx.rng.getrandbits(48))
+            for cfg in configs:
+                r2 = random.Random(sub.getrandbits(48))
+                if i < n_twice:
+                    c, st = gen_twice(r2, cid, cfg, thorough)
+                    origin[str(cid)] = "twice"
+                else:
+                    prof, wd = r2.choice([("aof", None), ("reentrant", None), ("aof", safe_data)])
+                    c, st = gen_twice_split(r2, prof, cid, cfg, wd, thorough)
+                    origin[str(cid)] = "twice-split:" + prof
+                cases.append(c); cid += 1
+                stats.update(st)
+                stats["two_restart_histories"] += 1 if any(l.startswith("restart ") for l in c) else 0
+        cases.sort(key=lambda c: 0 if any(l.startswith("restart ") for l in c) else 1)     # the slow ones (real-time waits) first
         results, mres, mrc, merr = evaluate(ctx, binary, modelrun, cases, origin, tmp, jobs=12)
         # ------------------------------------------------------------ compare + monitor
         mism, hits = [], collections.OrderedDict()
@@ -623,13 +920,26 @@ def run(ctx):
             dist["outage_%s" % c[0].split()[4]] += 1
             if len(B) >= 1 and len(o1["replies"]) >= 3:
                 nontrivial.add(hash(tuple(c[1:])))
-            for sig, desc in monitor(c, o1, o2, (mres.get(cid_s) or {}).get("recs")):
+            o3 = o2.get("second")
+            if o3 is not None and o3.get("wall") is not None:
+                dist["second_restarts"] += 1
+                dist["holds_at_second_stop"] += len(o2["holds2"]); dist["holds_after_second_restart"] += len(o3["holds"])
+                r1 = set(hold_key(l) for l in o2["holds"]); a2 = set(hold_key(l) for l in o2["holds2"])
+                dist["restored_holds_released_in_run2"] += len(r1 - a2); dist["restored_holds_kept_in_run2"] += len(r1 & a2)
+                dist["new_holds_in_run2"] += len(a2 - r1)
+                if len(r1 - a2) >= 1 and len(o3["holds"]) >= 1:
+                    nontrivial.add(hash(tuple(c[1:])))
+            bigv = [len(hold_fields(l)["val"]) // 2 for l in o2["holds"] if hold_fields(l)["val"] != "-"]
+            dist["restored_values_over_1000_bytes"] += sum(1 for x in bigv if x > 1000)
+            h_, d = analyse(c, o1, o2, mres.get(cid_s))
+            for sig, desc in h_:
                 hits.setdefault(sig, []).append((c, desc))
-            d = compare_case(c, o1, o2, mres.get(cid_s))
             if d:
                 mism.append((c, d))
             elif cid_s in mres:
                 dist["model_compared"] += 1
+                if (mres[cid_s].get("p2") or {}).get("nowend") is not None:
+                    dist["model_compared_second_restart"] += 1
         # ------------------------------------------------------------ classification
         new_inputs = 0
         for sig, lst in hits.items():
@@ -639,13 +949,14 @@ def run(ctx):
                 o1, o2 = run_go(binary, cc, os.path.join(tmp, "shrink"))
                 if o2 is None or o2.get("wall") is None or o1.get("panic"):
                     return False
-                recs = None
+                m = None
                 if not uses_ms(cc):
                     mr, _, _ = run_model(modelrun, [model_input(cc, o1, o2)], tmp)
-                    recs = (mr.get(cc[0].split()[1]) or {}).get("recs")
-                return any(s == sig for s, _ in monitor(cc, o1, o2, recs))
+                    m = mr.get(cc[0].split()[1])
+                return any(s == sig for s, _ in analyse(cc, o1, o2, m)[0])
             known = any(k.get("status") == "known" and re.fullmatch(k["match"], sig) for k in ctx.known)
-            short = shrink(c, still, max_rounds=10 if known else 60) if len(c) > 6 else c
+            twice = any(l.startswith("restart ") for l in c)         # every evaluation of a two-restart history waits in real time
+            short = shrink(c, still, max_rounds=(0 if twice else 10) if known else (25 if twice else 60)) if len(c) > 6 else c
             res = ctx.violation(sig, desc, {"history": short, "origin": origin.get(c[0].split()[1]), "occurrences": len(lst),
                                             "how_to_replay": "python3 tools/check.py C07 --replay <this file>"}, found_input=True)
             if res == "new":
@@ -699,13 +1010,18 @@ def replay(ctx, binary, modelrun, tmp):
         print("history did not run:", o1.get("rc"), o1.get("stderr")); return 1
     print("census before the stop:"); print("\n".join(o1["holds"]))
     print("census after the restart (wall %s):" % o2["wall"]); print("\n".join(o2["holds"]))
-    recs = None
+    o3 = o2.get("second")
+    if o3 is not None:
+        print("replies of the run after the restart:"); print("\n".join(o2["replies2"]))
+        print("census at the second stop (db clock %s):" % o2.get("nowend2")); print("\n".join(o2["holds2"]))
+        print("census after the second restart (wall %s):" % o3.get("wall")); print("\n".join(o3["holds"]))
+    m = None
     if not uses_ms(hist):
         mres, mrc, merr = run_model(modelrun, [model_input(hist, o1, o2)], tmp)
-        recs = (mres.get(hist[0].split()[1]) or {}).get("recs")
-        d = compare_case(hist, o1, o2, mres.get(hist[0].split()[1]))
-        if d:
-            print("model and implementation differ:", json.dumps(d)[:1200]); rc = 1
-    for sig, desc in monitor(hist, o1, o2, recs):
+        m = mres.get(hist[0].split()[1])
+    hits, d = analyse(hist, o1, o2, m)
+    if d:
+        print("model and implementation differ:", json.dumps(d)[:1200]); rc = 1
+    for sig, desc in hits:
         print("monitor: %s: %s" % (sig, desc)); rc = 1
     return rc
